@@ -497,6 +497,9 @@ func judge(r *mon.Rec, t *testing.T, sc scriptT, tag string) {
 				}
 				continue
 			}
+			if mc.res.Kind == "closed" && (got.Kind == "closed" || got.Kind == "noresp") && got.At == mc.res.At {
+				continue // a call made on a closed client may fail with the conn's error or with the no-response error
+			}
 			if got.Kind != mc.res.Kind || got.Nonce != mc.res.Nonce || got.At != mc.res.At {
 				bad("model-mismatch:"+mc.res.Kind+"-vs-"+got.Kind, "call %d (xid %d matcher %s tries %d): model says %s nonce=%d at %v, client returned %s nonce=%d at %v", id, mc.xid, mc.matcher, mc.tries, mc.res.Kind, mc.res.Nonce, mc.res.At, got.Kind, got.Nonce, got.At)
 				return
